@@ -2,13 +2,14 @@
 package c08trunc
 
 import (
-	"sort"
 	"bytes"
 	"encoding/hex"
 	"encoding/json"
 	"fmt"
 	"io"
 	"reflect"
+	"sort"
+	"strings"
 	"testing"
 	"time"
 
@@ -56,6 +57,50 @@ type Case struct {
 	// Used (reflect decoder): hex of the complete encoding, decoded into the
 	// destination before each truncated prefix is
 	Used string `json:"used,omitempty"`
+	// Converted (decoder call2, the place where every generated proxy decodes the
+	// answer to a call): the caller expects a type which differs from the one
+	// the service declares (wider integers, other struct names), so that the
+	// answer is decoded as declared and converted afterwards
+	Converted bool `json:"converted,omitempty"`
+}
+
+// cannedClient is a bus.Client whose every call is answered with the same bytes.
+type cannedClient struct{ reply []byte }
+
+func (c cannedClient) Call(cancel <-chan struct{}, serviceID, objectID, methodID uint32, payload []byte) ([]byte, error) {
+	return c.reply, nil
+}
+func (c cannedClient) Subscribe(serviceID, objectID, actionID uint32) (func(), chan []byte, error) {
+	return func() {}, make(chan []byte), nil
+}
+func (c cannedClient) OnDisconnect(cb func(error)) error      { return nil }
+func (c cannedClient) State(signal string, increment int) int { return 0 }
+func (c cannedClient) Channel() bus.Channel                   { return bus.NewContext(nil) }
+
+// widen returns a type into which every value of t converts (wider integers
+// and floats, renamed structs) and whether its signature differs from t's.
+func widen(t *ref.Type, changed *bool) *ref.Type {
+	n := *t
+	up := map[ref.Kind]ref.Kind{ref.KInt8: ref.KInt16, ref.KInt16: ref.KInt32, ref.KInt32: ref.KInt64,
+		ref.KUint8: ref.KUint16, ref.KUint16: ref.KUint32, ref.KUint32: ref.KUint64, ref.KFloat32: ref.KFloat64}
+	if k, ok := up[t.Kind]; ok {
+		n.Kind = k
+		*changed = true
+	}
+	if t.Elem != nil {
+		n.Elem = widen(t.Elem, changed)
+	}
+	if t.Kind == ref.KStruct && !strings.Contains(t.Name, "<") {
+		n.Name = t.Name + "W"
+		*changed = true
+	}
+	if len(t.Members) > 0 {
+		n.Members = make([]*ref.Type, len(t.Members))
+		for i, m := range t.Members {
+			n.Members[i] = widen(m, changed)
+		}
+	}
+	return &n
 }
 
 // bigData builds the encoding of a big case: a message with a BigLen byte
@@ -83,7 +128,7 @@ func bigData(c Case) []byte {
 const serviceInfoSig = "(sIsI[s]ss)<ServiceInfo,name,serviceId,machineId,processId,endpoints,sessionId,objectUid>"
 const capMapSig = "{sm}"
 
-var decoders = []string{"message", "value", "reader", "opaque", "reflect", "metaobject", "objectref", "serviceinfo", "capmap"}
+var decoders = []string{"message", "value", "reader", "opaque", "reflect", "metaobject", "objectref", "serviceinfo", "capmap", "call2"}
 
 func typeOpts() gen.TypeOpts {
 	return gen.TypeOpts{Depth: 3, Width: 3,
@@ -127,6 +172,13 @@ func genCase(t *rapid.T) Case {
 			inner = ref.TupleOf(inner, ref.Scalar(ref.KString))
 		}
 		ty, v = ref.Scalar(ref.KValue), ref.Dyn{T: inner, V: gen.DrawValue(t, inner, vo)}
+	case "call2":
+		o := typeOpts()
+		o.Leaves = gen.AllScalars
+		o.ZeroMem = false
+		ty = gen.DrawType(t, o)
+		v = gen.DrawValue(t, ty, vo)
+		c.Converted = rapid.Bool().Draw(t, "converted")
 	case "reader", "reflect":
 		ty = gen.DrawType(t, typeOpts())
 		v = gen.DrawValue(t, ty, vo)
@@ -248,6 +300,21 @@ func decode(c Case, ty *ref.Type, r io.Reader) (err error, panicked interface{})
 			}
 		}
 		err = encoding.NewDecoder(encoding.DefaultCap(), r).Decode(ptr.Interface())
+	case "call2":
+		reply, _ := io.ReadAll(r)
+		want, changed := ty, false
+		if c.Converted {
+			want = widen(ty, &changed)
+		}
+		dst := reflect.New(bridge.GoType(want, nil))
+		meta := object.MetaObject{Methods: map[uint32]object.MetaMethod{
+			100: {Uid: 100, Name: "get", ParametersSignature: "()", ReturnSignature: c.Sig},
+		}}
+		proxy := bus.NewProxy(cannedClient{reply}, meta, 7, 1)
+		err = proxy.Call2("get", bus.NewParams("()"), bus.NewResponse(want.Sig(), dst.Interface()))
+		if changed {
+			vt.Label("call2=converted")
+		}
 	case "metaobject":
 		_, err = object.ReadMetaObject(r)
 	case "objectref":
